@@ -21,6 +21,67 @@ def _path_has(cfg, path, pred) -> bool:
     return False
 
 
+def check_autoclose(ctx: Ctx, oid: str) -> None:
+    """C03.e (also C06.e, C10.i): executetask closes its channel on every exit"""
+    repo = ctx.repo
+    with ctx.obligation(oid, "autoclose") as ob:
+        fe = repo.func(f"{GB}.WorkerGateway.executetask")
+        cfg = build_cfg(repo, fe, Oracle(repo, fe, nonraising=NONRAISING))
+        closes = cfg_nodes_with_call(cfg, lambda c: callee_attr(c) == "close" and unparse(c.func.value) == "channel")
+        ob.require(len(closes) >= 2, "channel.close(...) calls not found in executetask")
+        for ex, kind in ((cfg.exit.id, "return"), (cfg.raise_exit.id, "raise")):
+            p = cfg.must_pass([cfg.entry.id], [ex], {c.id for c in closes})
+            ob.site(fe, fe.node, f"every path ENTRY->{kind.upper()} passes channel.close(...)", close_sites=[c.line for c in closes])
+            if p is not None:
+                ob.violation(fe, fe.node, f"executetask can finish ({kind}) without closing its channel: the initiator's waitclose/receive would block forever",
+                             construct=f"exit:{kind}", path=cfg.describe_path(p))
+
+
+def check_del_notifies(ctx: Ctx, oid: str) -> None:
+    """C03.f (also C18.g): dropping an open channel tells the peer (CLOSE / LAST_MESSAGE)"""
+    repo = ctx.repo
+    with ctx.obligation(oid, "del-notifies") as ob:
+        fd = repo.func(f"{GB}.Channel.__del__")
+        cfg = build_cfg(repo, fd, Oracle(repo, fd, precise=True))
+        consts = repo.cls("Message").consts
+        for has_cb in (True, False):
+            base = Facts(repo, fd, {}, expand_locals=True)
+            for k, v in (("self.gateway is None", False), ("self._closed", False), ("self._receiveclosed.is_set()", False), ("Message is None", False),
+                         ("self._items is None", has_cb)):
+                base.assume_src(k, v)
+            k = 0
+            for path, facts in feasible_paths(repo, fd, cfg, base, kill_on_store=False):
+                if path[-1][0] != cfg.exit.id:
+                    continue
+                k += 1
+                code = None
+                sent = False
+                codes: dict[str, object] = {}
+                for nid, _ in path:
+                    nd = cfg.nodes[nid]
+                    if isinstance(nd.ast, ast.Assign) and isinstance(nd.ast.targets[0], ast.Name):
+                        v = nd.ast.value
+                        if isinstance(v, ast.IfExp):
+                            tv = facts.eval(v.test)
+                            v = v.body if tv is True else (v.orelse if tv is False else v)
+                        codes[nd.ast.targets[0].id] = repo.fold_in(v, fd)
+                    for c in (calls_in_node(nd) if nd.ast is not None else []):
+                        if callee_attr(c) == "_send" and len(c.args) >= 2 and unparse(c.args[1]) == "self.id":
+                            a0 = c.args[0]
+                            if isinstance(a0, ast.IfExp):
+                                tv = facts.eval(a0.test)
+                                a0 = a0.body if tv is True else (a0.orelse if tv is False else a0)
+                            code = codes.get(a0.id) if isinstance(a0, ast.Name) and a0.id in codes else repo.fold_in(a0, fd)
+                            sent = True
+                want = consts["CHANNEL_LAST_MESSAGE"] if has_cb else consts["CHANNEL_CLOSE"]
+                ob.site(fd, fd.node, f"opened channel dropped (callback installed: {has_cb})", sent=sent, code=code)
+                if not sent or code != want:
+                    ob.violation(fd, fd.node, f"dropping an open channel ({'with' if has_cb else 'without'} callback) does not send "
+                                              f"{'CHANNEL_LAST_MESSAGE' if has_cb else 'CHANNEL_CLOSE'}: the peer never learns that no more data comes",
+                                 construct=f"__del__ cb={has_cb} sent={sent} code={code}")
+            ob.require(k >= 1, "__del__: no path for the opened state")
+
+
 def check(ctx: Ctx) -> None:
     repo = ctx.repo
     ctx.decides = ("ENDMARKER is put back wherever it is taken; both implementations of the closed transition (Channel.close, "
@@ -175,58 +236,9 @@ def check(ctx: Ctx) -> None:
                 ob.violation(f_close, nd.ast, "an effect of Channel.close is executed even when the channel is already closed (a second close is not a no-op)")
         ob.require(n >= 5, f"{n} effects in Channel.close (floor 5)")
 
-    with ctx.obligation("C03.e", "autoclose") as ob:
-        fe = repo.func(f"{GB}.WorkerGateway.executetask")
-        cfg = build_cfg(repo, fe, Oracle(repo, fe, nonraising=NONRAISING))
-        closes = cfg_nodes_with_call(cfg, lambda c: callee_attr(c) == "close" and unparse(c.func.value) == "channel")
-        ob.require(len(closes) >= 2, "channel.close(...) calls not found in executetask")
-        for ex, kind in ((cfg.exit.id, "return"), (cfg.raise_exit.id, "raise")):
-            p = cfg.must_pass([cfg.entry.id], [ex], {c.id for c in closes})
-            ob.site(fe, fe.node, f"every path ENTRY->{kind.upper()} passes channel.close(...)", close_sites=[c.line for c in closes])
-            if p is not None:
-                ob.violation(fe, fe.node, f"executetask can finish ({kind}) without closing its channel: the initiator's waitclose/receive would block forever",
-                             construct=f"exit:{kind}", path=cfg.describe_path(p))
+    check_autoclose(ctx, "C03.e")
 
-    with ctx.obligation("C03.f", "del-notifies") as ob:
-        fd = repo.func(f"{GB}.Channel.__del__")
-        cfg = build_cfg(repo, fd, Oracle(repo, fd, precise=True))
-        consts = repo.cls("Message").consts
-        for has_cb in (True, False):
-            base = Facts(repo, fd, {}, expand_locals=True)
-            for k, v in (("self.gateway is None", False), ("self._closed", False), ("self._receiveclosed.is_set()", False), ("Message is None", False),
-                         ("self._items is None", has_cb)):
-                base.assume_src(k, v)
-            k = 0
-            for path, facts in feasible_paths(repo, fd, cfg, base, kill_on_store=False):
-                if path[-1][0] != cfg.exit.id:
-                    continue
-                k += 1
-                code = None
-                sent = False
-                codes: dict[str, object] = {}
-                for nid, _ in path:
-                    nd = cfg.nodes[nid]
-                    if isinstance(nd.ast, ast.Assign) and isinstance(nd.ast.targets[0], ast.Name):
-                        v = nd.ast.value
-                        if isinstance(v, ast.IfExp):
-                            tv = facts.eval(v.test)
-                            v = v.body if tv is True else (v.orelse if tv is False else v)
-                        codes[nd.ast.targets[0].id] = repo.fold_in(v, fd)
-                    for c in (calls_in_node(nd) if nd.ast is not None else []):
-                        if callee_attr(c) == "_send" and len(c.args) >= 2 and unparse(c.args[1]) == "self.id":
-                            a0 = c.args[0]
-                            if isinstance(a0, ast.IfExp):
-                                tv = facts.eval(a0.test)
-                                a0 = a0.body if tv is True else (a0.orelse if tv is False else a0)
-                            code = codes.get(a0.id) if isinstance(a0, ast.Name) and a0.id in codes else repo.fold_in(a0, fd)
-                            sent = True
-                want = consts["CHANNEL_LAST_MESSAGE"] if has_cb else consts["CHANNEL_CLOSE"]
-                ob.site(fd, fd.node, f"opened channel dropped (callback installed: {has_cb})", sent=sent, code=code)
-                if not sent or code != want:
-                    ob.violation(fd, fd.node, f"dropping an open channel ({'with' if has_cb else 'without'} callback) does not send "
-                                              f"{'CHANNEL_LAST_MESSAGE' if has_cb else 'CHANNEL_CLOSE'}: the peer never learns that no more data comes",
-                                 construct=f"__del__ cb={has_cb} sent={sent} code={code}")
-            ob.require(k >= 1, "__del__: no path for the opened state")
+    check_del_notifies(ctx, "C03.f")
 
     with ctx.obligation("C03.g", "same-stream") as ob:
         callers = sorted({f.short for f, _c in repo.callsites_flat(f"{GB}.Message.to_io")})
